@@ -13,6 +13,8 @@ import (
 	"sort"
 	"strings"
 	"sync"
+	"syscall"
+	"time"
 
 	"github.com/llir/llvm/asm"
 	"github.com/llir/llvm/ir"
@@ -163,7 +165,7 @@ func genC12(ctx *fw.Ctx) []fw.Case {
 	// rest is a PRNG sample
 	var always, rest []corpus.Source
 	for _, b := range base {
-		if strings.HasPrefix(b.ID, "atom/module/") || strings.HasPrefix(b.ID, "atom/global/") || strings.HasPrefix(b.ID, "atom/md/tuples") || strings.HasPrefix(b.ID, "atom/types/") || strings.HasPrefix(b.ID, "atom/md/di-compileunit") || strings.HasPrefix(b.ID, "atom/func/attrgroup") {
+		if strings.HasPrefix(b.ID, "atom/module/") || strings.HasPrefix(b.ID, "atom/global/") || strings.HasPrefix(b.ID, "atom/md/tuples") || strings.HasPrefix(b.ID, "atom/types/") || strings.HasPrefix(b.ID, "atom/md/di-compileunit") || strings.HasPrefix(b.ID, "atom/md/named-") || strings.HasPrefix(b.ID, "atom/func/attrgroup") {
 			always = append(always, b)
 		} else {
 			rest = append(rest, b)
@@ -418,6 +420,49 @@ func c12Case(r *fw.Rec, proc int, s corpus.Source, companions []corpus.Source) {
 			return
 		}
 		r.Tally("entry_points", "ParseFile")
+	}
+	// ParseFile on a path whose size is not known up front (a named pipe fed by a
+	// writer): the file is whatever can be read from it
+	fifo := filepath.Join(r.Ctx().Scratch, fmt.Sprintf("c12-%d-%d.fifo", os.Getpid(), rng.Int63()))
+	if err := syscall.Mkfifo(fifo, 0o600); err == nil {
+		done := make(chan struct{})
+		go func() {
+			defer close(done)
+			w, err := os.OpenFile(fifo, os.O_WRONLY, 0)
+			if err != nil {
+				return
+			}
+			data := []byte(text)
+			for len(data) > 0 {
+				n := 1 + rng.Intn(4096)
+				if n > len(data) {
+					n = len(data)
+				}
+				if _, err := w.Write(data[:n]); err != nil {
+					break
+				}
+				data = data[n:]
+			}
+			w.Close()
+		}()
+		o := c12Parse(func() (*ir.Module, error) { return asm.ParseFile(fifo) })
+		// (a reader that never opened the pipe would leave the writer blocked: open and drain it)
+		select {
+		case <-done:
+		case <-time.After(2 * time.Second):
+			if rd, err := os.OpenFile(fifo, os.O_RDONLY|syscall.O_NONBLOCK, 0); err == nil {
+				io.Copy(io.Discard, rd)
+				rd.Close()
+			}
+			<-done
+		}
+		os.Remove(fifo)
+		r.Eval(1)
+		if o.summary() != ref.summary() {
+			c12Report(r, s.ID, text, "ParseFile(named pipe)", ref, o)
+			return
+		}
+		r.Tally("entry_points", "ParseFile(named pipe)")
 	}
 	for _, ep := range []string{"Parse/1-byte-reader", "Parse/chunk-reader", "Parse/bytes.Reader", "ParseBytes", "Parse/chunk-reader-eof-with-last-data", "Parse/one-read-data-and-eof"} {
 		var o c12Outcome
